@@ -46,7 +46,7 @@ type stressResult struct {
 func runStressRound(r stressRound) stressResult {
 	dir := MkScratch("vf-stress-")
 	defer os.RemoveAll(dir)
-	opts := klevdb.Options{KeyIndex: true, TimeIndex: true, Rollover: r.Rollover}
+	opts := klevdb.Options{KeyIndex: true, TimeIndex: true, Rollover: r.Rollover, AutoSync: r.Seed%3 == 0}
 	opts.Version.KeepRewriteVersion = r.Keep
 	if r.V1 {
 		opts.Version.NewSegmentsVersion = klevdb.V1
@@ -355,7 +355,7 @@ func runStressRound(r stressRound) stressResult {
 func runDuet(seed int64, a, b string, keep bool, ms int) []string {
 	dir := MkScratch("vf-duet-")
 	defer os.RemoveAll(dir)
-	opts := klevdb.Options{KeyIndex: true, TimeIndex: true, Rollover: 120}
+	opts := klevdb.Options{KeyIndex: true, TimeIndex: true, Rollover: 120, AutoSync: seed%2 == 0}
 	opts.Version.KeepRewriteVersion = keep
 	l, err := klevdb.Open(dir, opts)
 	if err != nil {
@@ -482,8 +482,9 @@ func TestC08Duets(t *testing.T) {
 		if i%shards != shard {
 			continue
 		}
-		for _, keep := range []bool{true, false} {
-			fails := runDuet(seed+int64(i), pr[0], pr[1], keep, ms)
+		for ki, keep := range []bool{true, false} {
+			// seed parity selects AutoSync; alternate it with KeepRewriteVersion so all four mixes occur over runs
+			fails := runDuet((seed+int64(i))*2+int64((ki+int(seed))%2), pr[0], pr[1], keep, ms)
 			st.Eval(1)
 			st.NonTrivialStr(fmt.Sprintf("duet|%s|%s|%v", pr[0], pr[1], keep))
 			st.Inc("duets")
